@@ -190,6 +190,9 @@ pub struct NodeRec {
     pub key: Option<usize>,
     /// sum of all waker fires seen at the end of the previous poll (S oracle)
     pub fire_snapshot: u64,
+    /// leaves: number of waker invocations recorded so far (kept incrementally:
+    /// long runs must not re-count them on every poll)
+    pub fire_count: u64,
     /// clock at which the drop of this (combinator) node began
     pub drop_begin: Option<u32>,
     /// "work" futures of concurrent streams: item index they process
@@ -217,6 +220,9 @@ impl NodeRec {
         self.polls.last().map(|p| &p.answer)
     }
     pub fn total_fires(&self) -> u64 {
+        if self.is_leaf() {
+            return self.fire_count;
+        }
         self.wakers
             .iter()
             .map(|w| {
@@ -584,6 +590,7 @@ impl World {
             removed_at: None,
             key: None,
             fire_snapshot: 0,
+            fire_count: 0,
             drop_begin: None,
             item: None,
             created_at,
@@ -719,8 +726,12 @@ impl World {
                             // group members added through extend/from_iter have
                             // unobservable keys: an earlier occupant of this slot
                             // cannot be identified, so S is not judged there
+                            // (a member added *after* this one cannot have been an
+                            // earlier occupant of its key, so only older unknowns matter)
+                            let created = n.created_at;
                             let unknown_keys = self.group_model
-                                && self.nodes[p].children().iter().any(|&c| self.nodes[c].key.is_none());
+                                && (n.key.is_none()
+                                    || self.nodes[p].children().iter().any(|&c| self.nodes[c].key.is_none() && self.nodes[c].created_at < created));
                             if fires == n.fire_snapshot && !unknown_keys {
                                 let m = format!(
                                     "{} re-polled although its last answer was Pending and none of its wakers fired since",
@@ -871,6 +882,7 @@ pub fn leaf_poll(id: NodeId, cx: &mut Context<'_>) -> LeafOut {
             Act::Panic => n.panicked = true,
             Act::SelfWake | Act::WakeYield => {
                 n.wakers.last_mut().unwrap().fires.push(begin);
+                n.fire_count += 1;
             }
             _ => {}
         }
@@ -952,6 +964,7 @@ fn pick_waker(w: &mut World, target: NodeId, which: usize, note: &str) -> (Optio
         return (None, FireInfo::default());
     }
     let idx = len - 1 - which.min(len - 1);
+    n.fire_count += 1;
     let rec = &mut n.wakers[idx];
     rec.fires.push(now);
     let info = FireInfo {
